@@ -1,10 +1,10 @@
-(* C03: positions.  (F) the arithmetic guard `star_offset_ok` follows from a description of the receiver over ground-truth
-   fields (`recv_consistent`: method with its receiver / function / bound class method called through its class);
-   (B) a positional value that CPython binds to a NAMED parameter without default is handed to the checker by the first pass
-   before the body can run (lock-step of FunctionCall._check_type_param and CPython's binding).                      *)
+(* C03: FunctionCall._check_type_param and CPython's binding of the call walk the declared parameters in lock-step (since /repo
+   f0d33a4, b2616e5): every value CPython binds to a named parameter - by keyword, positionally (whether or not the parameter has a
+   default), by default - and every element of *args / value of **kwargs has been handed to the checker when the argument phase
+   succeeds.  The receiver is described over ground-truth fields (`recv_consistent` / `recv_known`).                     *)
 From Coq Require Import List Arith Bool String Lia.
 From PV Require Import Base.Exn Base.Values Base.Ann Base.PyCall Model.CheckerCfg Model.Checker Model.PedanticCfg
-  Model.Pedantic Spec.Conforms Spec.PedanticSpec Proofs.PedanticBase Proofs.PyCallFacts Proofs.PedanticC03.
+  Model.Pedantic Spec.Conforms Spec.PedanticSpec Proofs.PedanticBase Proofs.PyCallFacts Proofs.PedanticC05 Proofs.PedanticC03.
 Import ListNotations.
 Open Scope list_scope.
 
@@ -31,94 +31,11 @@ Proof.
   - exists n, o, x. repeat split; try apply D; try assumption. intros; discriminate.
 Qed.
 
-Lemma bind_go_kwonly : forall all kws ps pos b, bind_go all ps pos kws = Ok b ->
-  forall p, In p ps -> p_kind p = KwOnly -> no_default p = true -> mem (p_name p) kws = true.
-Proof.
-  intros all kws. induction ps as [|q ps IH]; intros pos b H p Hin Hk Hd; [contradiction|].
-  simpl in H. unfold by_default in H.
-  assert (Rec : forall pos' sl, omap (cons (p_name q, sl)) (bind_go all ps pos' kws) = Ok b -> In p ps -> mem (p_name p) kws = true).
-  { intros pos' sl E Hp. destruct (bind_go all ps pos' kws) as [b'|] eqn:Eb; [|discriminate]. eapply IH; eassumption. }
-  destruct Hin as [->|Hin].
-  - rewrite Hk in H. destruct (mem (p_name p) kws); [reflexivity|]. unfold no_default in Hd. destruct (p_default p); discriminate.
-  - destruct (p_kind q).
-    + destruct pos; [destruct (p_default q); [|discriminate]|]; eapply Rec; eassumption.
-    + destruct pos; [destruct (mem (p_name q) kws); [|destruct (p_default q); [|discriminate]]|destruct (mem (p_name q) kws); [discriminate|]];
-        eapply Rec; eassumption.
-    + eapply Rec; eassumption.
-    + destruct (mem (p_name q) kws); [|destruct (p_default q); [|discriminate]]; eapply Rec; eassumption.
-    + eapply Rec; eassumption.
-Qed.
-
 Lemma kw_get_none_mem : forall k kws, kw_get k kws = None -> mem k (map fst kws) = false.
 Proof.
   intros k kws H. destruct (mem k (map fst kws)) eqn:E; [|reflexivity].
   destruct (kw_get_mem_some _ _ E) as [v Hv]. congruence.
 Qed.
-
-Section Offset.
-  Variable f : fn.
-  Variable c : call.
-  Variable b : binding.
-  Hypothesis Hsig : sig_ok f = true.
-  Hypothesis Hb : twin_binding f c = Ok b.
-
-  Definition notself (p : param) : bool := negb (Nat.eqb (p_name p) self_name).
-  Definition nonstar (p : param) : bool := negb (is_star p).
-
-  (* what the first pass takes from the positional values is bounded by what CPython must fill positionally *)
-  Lemma req1_le_req_pos : forall l, incl l (full_params f) ->
-    List.length (filter (req1 c) (filter nonstar (filter notself l))) <= List.length (filter (req_pos (kw_names c)) l).
-  Proof.
-    unfold twin_binding, py_bind in Hb.
-    destruct (forallb (fun k => mem k (kw_param_names (full_params f)) || has_varkw (full_params f)) (kw_names c)); [|discriminate].
-    induction l as [|p l IH]; intros Hi; [simpl; lia|].
-    assert (Hp : In p (full_params f)) by (apply Hi; now left).
-    assert (Hi' : incl l (full_params f)) by (intros x Hx; apply Hi; now right).
-    specialize (IH Hi'). simpl filter at 3.
-    destruct (notself p) eqn:En; [|cbn [filter]; destruct (req_pos (kw_names c) p); simpl; lia].
-    simpl filter at 2. destruct (nonstar p) eqn:Es; [|cbn [filter]; destruct (req_pos (kw_names c) p); simpl; lia].
-    simpl filter at 1. destruct (req1 c p) eqn:Er; [|cbn [filter]; destruct (req_pos (kw_names c) p); simpl; lia].
-    assert (Hrp : req_pos (kw_names c) p = true).
-    { unfold req1 in Er. apply andb_true_iff in Er as [Hd Hk]. destruct (kw_get (p_name p) (c_kwargs c)) eqn:Ek; [discriminate|].
-      pose proof (kw_get_none_mem _ _ Ek) as Hm. unfold req_pos. unfold kw_names. rewrite Hd, Hm. simpl.
-      unfold nonstar, is_star, is_varpos, is_varkw in Es. unfold is_pos. destruct (p_kind p) eqn:Ekind; try discriminate; try reflexivity.
-      exfalso. pose proof (bind_go_kwonly _ _ _ _ _ Hb p Hp Ekind Hd) as Hm'. unfold kw_names in Hm'. congruence. }
-    cbn [filter]. rewrite Hrp. simpl. lia.
-  Qed.
-
-  Theorem star_offset_of_known : recv_known f c -> star_offset_ok f c = true.
-  Proof.
-    intros [S1|[S2|S3]]; unfold star_offset_ok; apply Nat.leb_le; unfold params_without_self; fold notself; fold nonstar.
-    - destruct S1 as [Hbd [Hrecv [Hfa [r [rest [x [Hps [Hn [Hk [Hd [Hrc [Htw Hm]]]]]]]]]]]].
-      assert (Hfull : full_params f = r :: rest) by (unfold full_params, func_params; now rewrite Hbd).
-      assert (Hinst : is_instance_method f = true) by (unfold is_instance_method; now rewrite Hfa).
-      rewrite Hinst, Hrc, Htw, Hfull, Hps. simpl List.length.
-      assert (Hr1 : notself r = false) by (unfold notself; now rewrite Hn).
-      assert (Hr2 : req_pos (kw_names c) r = true) by (unfold req_pos, is_pos, no_default; now rewrite Hk, Hd, Hn, Hm).
-      cbn [filter]. rewrite Hr1, Hr2. simpl List.length.
-      pose proof (req1_le_req_pos rest) as H. rewrite Hfull in H. specialize (H (fun x Hx => or_intror Hx)). lia.
-    - destruct S2 as [Hbd [Hrecv [Hinst [Hrc Htw]]]].
-      assert (Hfull : full_params f = f_params f) by (unfold full_params, func_params; now rewrite Hbd).
-      rewrite Hinst, Htw, Hfull. simpl List.length.
-      pose proof (req1_le_req_pos (f_params f)) as H. rewrite Hfull in H. specialize (H (fun x Hx => Hx)). lia.
-    - destruct S3 as [n [o [x [Hbd [Hinst [Hrc [Htw Hm]]]]]]].
-      assert (Hfull : full_params f = bound_param n :: f_params f) by (unfold full_params, func_params; now rewrite Hbd).
-      rewrite Hinst, Htw, Hfull. simpl List.length.
-      assert (Hr2 : req_pos (kw_names c) (bound_param n) = true) by (unfold req_pos, is_pos, no_default, bound_param; simpl; now rewrite Hm).
-      cbn [filter]. rewrite Hr2. simpl List.length.
-      pose proof (req1_le_req_pos (f_params f)) as H. rewrite Hfull in H. specialize (H (fun x Hx => or_intror Hx)). lia.
-  Qed.
-End Offset.
-
-(* ---------------- (B) positional values of named parameters ---------------- *)
-Definition has_no_default (p : param) : bool := no_default p.
-
-(* no DEFAULTED named parameter is filled positionally (the finding: its default is checked in place of the value) *)
-Definition no_defaulted_positional (f : fn) (b : binding) : bool :=
-  forallb (fun ns => match find_param (fst ns) (declared f), snd ns with
-                     | Some p, BOne (SArg _) => no_default p
-                     | _, _ => true
-                     end) b.
 
 Lemma bind_go_names : forall all kws ps pos b, bind_go all ps pos kws = Ok b -> map fst b = map p_name ps.
 Proof.
@@ -137,130 +54,11 @@ Proof.
     + eapply Rec; eassumption.
 Qed.
 
-Lemma bind_go_nil_no_arg : forall all kws ps b, bind_go all ps [] kws = Ok b -> forall n i, ~ In (n, BOne (SArg i)) b.
-Proof.
-  intros all kws. induction ps as [|p ps IH]; intros b H n i Hin.
-  - simpl in H. inversion H; subst. contradiction.
-  - simpl in H. unfold by_default in H.
-    assert (Rec : forall sl, (forall j, sl <> BOne (SArg j)) -> omap (cons (p_name p, sl)) (bind_go all ps [] kws) = Ok b -> False).
-    { intros sl Hsl E. destruct (bind_go all ps [] kws) as [b'|] eqn:Eb; [|discriminate]. simpl in E. inversion E; subst.
-      destruct Hin as [E1|Hin]; [inversion E1; subst; eapply Hsl; reflexivity|]. eapply IH; [reflexivity|exact Hin]. }
-    destruct (p_kind p).
-    + destruct (p_default p); [|discriminate]. eapply Rec; [|exact H]. discriminate.
-    + destruct (mem (p_name p) kws); [|destruct (p_default p); [|discriminate]]; (eapply Rec; [|exact H]; discriminate).
-    + eapply Rec; [|exact H]. discriminate.
-    + destruct (mem (p_name p) kws); [|destruct (p_default p); [|discriminate]]; (eapply Rec; [|exact H]; discriminate).
-    + eapply Rec; [|exact H]. discriminate.
-Qed.
-
 Lemma nth_app_args : forall (recv args : list value) k v, nth_error args k = Some v -> nth (List.length recv + k) (recv ++ args) VNone = v.
 Proof.
   intros recv args k v H. rewrite app_nth2 by lia. replace (List.length recv + k - List.length recv) with k by lia.
   now apply nth_error_nth.
 Qed.
-
-Section Positional.
-  Variable pc : pedantic_cfg.
-  Variable check : ann -> value -> tvenv -> outcome unit * tvenv.
-  Variable consumes : ann -> value -> bool.
-  Hypothesis good : pc_good pc = true.
-  Variable f : fn.
-  Variable c : call.
-  Variable inst : option value.
-
-  Notation accepted := (accepted check).
-
-  (* FunctionCall._check_type_param and CPython's binding walk the declared parameters in lock-step: the k-th positional value the
-     caller wrote goes to the same parameter in both, as long as no defaulted parameter is filled positionally *)
-  Lemma lockstep : forall all ps k m idx st st' b0,
-    (forall p, In p ps -> p_name p <> self_name /\ p_kind p <> PosOnly) ->
-    distinct (map p_name ps) = true ->
-    bind_go all ps (map SArg (seq k m)) (kw_names c) = Ok b0 ->
-    pass_named pc check consumes f c inst (filter nonstar ps) idx st = Ok st' ->
-    idx = List.length (c_recv c) + k -> k + m = List.length (c_args c) ->
-    (forall p i, In p ps -> In (p_name p, BOne (SArg i)) b0 -> p_default p = None) ->
-    forall p i, In p ps -> In (p_name p, BOne (SArg i)) b0 ->
-      exists a v, p_ann p = Some a /\ nth_error (c_args c) i = Some v /\ accepted a v.
-  Proof.
-    intros all. induction ps as [|q ps IH]; intros k m idx st st' b0 Hps Hd Hb Hpass Hidx Hlen Hnd p i Hin Hslot; [contradiction|].
-    assert (Hps' : forall p0, In p0 ps -> p_name p0 <> self_name /\ p_kind p0 <> PosOnly) by (intros; apply Hps; now right).
-    simpl in Hd. apply andb_true_iff in Hd as [Hq Hd']. apply negb_true_iff in Hq. rewrite mem_false in Hq.
-    simpl in Hb. unfold by_default in Hb.
-    (* the entry of q is the only one with q's name *)
-    assert (Names : forall pos' b', bind_go all ps pos' (kw_names c) = Ok b' -> forall sl, ~ In (p_name q, sl) b').
-    { intros pos' b' Eb sl Hi. apply Hq. rewrite <- (bind_go_names _ _ _ _ _ Eb). now apply (in_map fst) in Hi. }
-    (* passing the positional values through to the tail *)
-    assert (Thru : forall sl b' pos', bind_go all ps pos' (kw_names c) = Ok b' -> b0 = (p_name q, sl) :: b' ->
-              (forall j, sl <> BOne (SArg j)) ->
-              (forall k' m' idx' st1, pos' = map SArg (seq k' m') -> idx' = List.length (c_recv c) + k' -> k' + m' = List.length (c_args c) ->
-                 pass_named pc check consumes f c inst (filter nonstar ps) idx' st1 = Ok st' ->
-                 exists a v, p_ann p = Some a /\ nth_error (c_args c) i = Some v /\ accepted a v) ->
-              In p ps -> In (p_name p, BOne (SArg i)) b' -> True).
-    { intros; exact I. }
-    clear Thru.
-    destruct (p_kind q) eqn:Ek.
-    - exfalso. destruct (Hps q (or_introl eq_refl)) as [_ Hk]. congruence.
-    - (* PosOrKw *)
-      assert (Hns : nonstar q = true) by (unfold nonstar, is_star, is_varpos, is_varkw; now rewrite Ek).
-      destruct m as [|m'].
-      + (* no positional value left: nobody gets one any more *)
-        exfalso. simpl in Hb. eapply (bind_go_nil_no_arg all (kw_names c) (q :: ps) b0); [|exact Hslot].
-        simpl. unfold by_default. rewrite Ek. exact Hb.
-      + simpl in Hb. destruct (mem (p_name q) (kw_names c)) eqn:Em; [discriminate|].
-        destruct (bind_go all ps (map SArg (seq (S k) m')) (kw_names c)) as [b'|] eqn:Eb; [|discriminate]. simpl in Hb. inversion Hb; subst b0.
-        assert (Hdq : p_default q = None) by (apply (Hnd q k); [now left|now left]).
-        simpl filter in Hpass. rewrite Hns in Hpass. cbn [pass_named] in Hpass.
-        destruct (p_ann q) as [a|] eqn:Ea; [|discriminate].
-        assert (Hkw : kw_get (p_name q) (c_kwargs c) = None) by (apply kw_get_not_mem; exact Em).
-        rewrite Hkw, Hdq in Hpass.
-        destruct (negb (should_have_kwargs pc f) && Nat.ltb idx (List.length (wargs c))); [|discriminate].
-        match type of Hpass with Exn.bind ?m _ = _ => destruct m as [st1|e] eqn:Ec; [|discriminate] end. simpl in Hpass.
-        destruct (chk_ok check consumes f c inst _ _ _ _ _ Ec) as [Hacc _].
-        destruct Hin as [->|Hin].
-        * (* q itself *)
-          destruct Hslot as [E|Hs]; [|exfalso; eapply Names; eassumption].
-          inversion E; subst i. assert (Hk : k < List.length (c_args c)) by lia.
-          destruct (nth_error (c_args c) k) as [v|] eqn:En; [|apply nth_error_None in En; lia].
-          exists a, v. repeat split; try assumption. unfold wargs in Hacc. rewrite Hidx in Hacc. now rewrite (nth_app_args _ _ _ _ En) in Hacc.
-        * destruct Hslot as [E|Hs]; [inversion E as [[Hn Hi]]; exfalso; apply Hq; rewrite Hn; now apply in_map|].
-          eapply (IH (S k) m' (S idx) st1 st' b'); try eassumption; try lia.
-          intros p0 i0 Hp0 Hs0. apply (Hnd p0 i0); [now right|now right].
-    - (* VarPos: everything that is left goes to *args *)
-      exfalso. destruct (bind_go all ps [] (kw_names c)) as [b'|] eqn:Eb; [|discriminate]. simpl in Hb. inversion Hb; subst b0.
-      destruct Hslot as [E|Hs]; [discriminate|]. eapply bind_go_nil_no_arg; eassumption.
-    - (* KwOnly *)
-      assert (Hns : nonstar q = true) by (unfold nonstar, is_star, is_varpos, is_varkw; now rewrite Ek).
-      simpl filter in Hpass. rewrite Hns in Hpass. cbn [pass_named] in Hpass.
-      destruct (p_ann q) as [a|] eqn:Ea; [|discriminate].
-      assert (Step : forall sl b', bind_go all ps (map SArg (seq k m)) (kw_names c) = Ok b' -> b0 = (p_name q, sl) :: b' ->
-                (forall j, sl <> BOne (SArg j)) ->
-                forall st1, pass_named pc check consumes f c inst (filter nonstar ps) idx st1 = Ok st' ->
-                exists a0 v, p_ann p = Some a0 /\ nth_error (c_args c) i = Some v /\ accepted a0 v).
-      { intros sl b' Eb E0 Hsl st1 Hp1. subst b0.
-        destruct Hin as [->|Hin]; [destruct Hslot as [E|Hs]; [inversion E; subst; exfalso; eapply Hsl; reflexivity|exfalso; eapply Names; eassumption]|].
-        destruct Hslot as [E|Hs]; [inversion E as [[Hn Hi]]; exfalso; apply Hq; rewrite Hn; now apply in_map|].
-        eapply (IH k m idx st1 st' b'); try eassumption.
-        intros p0 i0 Hp0 Hs0. apply (Hnd p0 i0); [now right|now right]. }
-      destruct (mem (p_name q) (kw_names c)) eqn:Em.
-      + destruct (bind_go all ps (map SArg (seq k m)) (kw_names c)) as [b'|] eqn:Eb; [|discriminate]. simpl in Hb. inversion Hb.
-        destruct (kw_get_mem_some _ _ Em) as [v0 Hv0]. rewrite Hv0 in Hpass.
-        match type of Hpass with Exn.bind ?m0 _ = _ => destruct m0 as [st1|e] eqn:Ec; [|discriminate] end. simpl in Hpass.
-        eapply Step; [reflexivity|symmetry; eassumption| |exact Hpass]. discriminate.
-      + destruct (p_default q) as [d|] eqn:Edq; [|discriminate].
-        destruct (bind_go all ps (map SArg (seq k m)) (kw_names c)) as [b'|] eqn:Eb; [|discriminate]. simpl in Hb. inversion Hb.
-        rewrite (kw_get_not_mem _ _ Em) in Hpass.
-        match type of Hpass with Exn.bind ?m0 _ = _ => destruct m0 as [st1|e] eqn:Ec; [|discriminate] end. simpl in Hpass.
-        eapply Step; [reflexivity|symmetry; eassumption| |exact Hpass]. discriminate.
-    - (* VarKw *)
-      assert (Hns : nonstar q = false) by (unfold nonstar, is_star, is_varpos, is_varkw; rewrite Ek; now rewrite orb_true_r).
-      simpl filter in Hpass. rewrite Hns in Hpass.
-      destruct (bind_go all ps (map SArg (seq k m)) (kw_names c)) as [b'|] eqn:Eb; [|discriminate]. simpl in Hb. inversion Hb; subst b0.
-      destruct Hin as [->|Hin]; [destruct Hslot as [E|Hs]; [discriminate|exfalso; eapply Names; eassumption]|].
-      destruct Hslot as [E|Hs]; [inversion E as [[Hn Hi]]; exfalso; apply Hq; rewrite Hn; now apply in_map|].
-      eapply (IH k m idx st st' b'); try eassumption.
-      intros p0 i0 Hp0 Hs0. apply (Hnd p0 i0); [now right|now right].
-  Qed.
-End Positional.
 
 Lemma find_param_complete' : forall ps p, distinct (map p_name ps) = true -> In p ps -> find_param (p_name p) ps = Some p.
 Proof.
@@ -274,99 +72,518 @@ Qed.
 Lemma filter_all' : forall {A} (g : A -> bool) l, forallb g l = true -> filter g l = l.
 Proof. intros A g. induction l as [|x l IH]; simpl; intros H; [reflexivity|]. apply andb_true_iff in H as [H1 H2]. rewrite H1. f_equal. auto. Qed.
 
-Section PositionalGuard.
+
+Definition nonstar (p : param) : bool := negb (is_star p).
+
+Lemma wargs_length : forall c, List.length (wargs c) = List.length (c_recv c) + List.length (c_args c).
+Proof. intros c. unfold wargs. now rewrite app_length. Qed.
+
+(* the entry of the head parameter is the only one that carries its name *)
+Lemma entry_cases : forall q ps slq (b' : binding) p sl, ~ In (p_name q) (map p_name ps) -> map fst b' = map p_name ps ->
+  In p (q :: ps) -> In (p_name p, sl) ((p_name q, slq) :: b') -> (p = q /\ sl = slq) \/ (In p ps /\ In (p_name p, sl) b').
+Proof.
+  intros q ps slq b' p sl Hq Hn [<-|Hp] [E|Hs].
+  - inversion E. now left.
+  - exfalso. apply Hq. rewrite <- Hn. now apply (in_map fst) in Hs.
+  - exfalso. apply Hq. inversion E as [[En Es]]. rewrite En. now apply in_map.
+  - now right.
+Qed.
+
+Section Lockstep.
+  Variable pc : pedantic_cfg.
+  Variable check : ann -> value -> tvenv -> outcome unit * tvenv.
+  Variable consumes : ann -> value -> bool.
+  Hypothesis good : pc_good pc = true.
+  Variable f : fn.
+  Variable c : call.
+  Variable inst : option value.
+
+  Notation accepted := (accepted check).
+  Notation pass_named := (pass_named pc check consumes f c inst).
+  Notation chk := (chk check consumes f c inst).
+
+  Definition pos_on (p : param) (idx : nat) : bool :=
+    takes_positional p && negb (should_have_kwargs pc f) && Nat.ltb idx (List.length (wargs c)).
+
+  (* one step of the first pass on a named parameter: which value it hands to the checker *)
+  Lemma pass_named_step : forall q ps idx st st', nonstar q = true ->
+    pass_named (filter nonstar (q :: ps)) idx st = Ok st' ->
+    exists a v s idx' st2, p_ann q = Some a /\ accepted a v /\ a_idx st2 = a_idx st /\
+      a_checked st2 = (if takes_keyword q then a_checked st ++ [p_name q] else a_checked st) /\
+      chk a v s {| a_tv := a_tv st; a_cons := a_cons st;
+                   a_checked := if takes_keyword q then a_checked st ++ [p_name q] else a_checked st; a_idx := a_idx st |} = Ok st2 /\
+      pass_named (filter nonstar ps) idx' st2 = Ok st' /\
+      ((takes_keyword q = true /\ kw_get (p_name q) (c_kwargs c) = Some v /\ idx' = idx)
+       \/ ((takes_keyword q = false \/ kw_get (p_name q) (c_kwargs c) = None) /\ pos_on q idx = true
+           /\ v = nth idx (wargs c) VNone /\ idx' = S idx)
+       \/ ((takes_keyword q = false \/ kw_get (p_name q) (c_kwargs c) = None) /\ pos_on q idx = false
+           /\ p_default q = Some v /\ idx' = idx)).
+  Proof.
+    intros q ps idx st st' Hns H. simpl filter in H. rewrite Hns in H. cbn [Pedantic.pass_named] in H.
+    destruct (p_ann q) as [a|] eqn:Ea; [|discriminate].
+    set (st1 := {| a_tv := a_tv st; a_cons := a_cons st;
+                   a_checked := if takes_keyword q then a_checked st ++ [p_name q] else a_checked st; a_idx := a_idx st |}) in *.
+    assert (Fin : forall v s idx', Exn.bind (chk a v s st1) (pass_named (filter nonstar ps) idx') = Ok st' ->
+              exists st2, accepted a v /\ a_idx st2 = a_idx st /\ a_checked st2 = a_checked st1 /\ chk a v s st1 = Ok st2 /\
+                          pass_named (filter nonstar ps) idx' st2 = Ok st').
+    { intros v s idx' Hb. destruct (chk a v s st1) as [st2|e] eqn:Ec; [|discriminate]. simpl in Hb.
+      destruct (chk_ok check consumes f c inst _ _ _ _ _ Ec) as [Hacc [Hch Hix]]. exists st2. repeat split; assumption. }
+    fold (pos_on q idx) in H.
+    destruct (takes_keyword q) eqn:Etk.
+    - destruct (kw_get (p_name q) (c_kwargs c)) as [v|] eqn:Ek.
+      + destruct (Fin _ _ _ H) as [st2 [Hacc [Hi [Hc [Hk Hp]]]]]. exists a, v, (SKw (p_name q)), idx, st2.
+        repeat split; try assumption. left. repeat split; reflexivity.
+      + destruct (pos_on q idx) eqn:Epo.
+        * destruct (Fin _ _ _ H) as [st2 [Hacc [Hi [Hc [Hk Hp]]]]]. eexists a, _, _, (S idx), st2.
+          repeat split; try eassumption. right. left. repeat split; auto.
+        * destruct (p_default q) as [d|] eqn:Ed; [|discriminate].
+          destruct (Fin _ _ _ H) as [st2 [Hacc [Hi [Hc [Hk Hp]]]]]. eexists a, d, _, idx, st2.
+          repeat split; try eassumption. right. right. repeat split; auto.
+    - destruct (pos_on q idx) eqn:Epo.
+      + destruct (Fin _ _ _ H) as [st2 [Hacc [Hi [Hc [Hk Hp]]]]]. eexists a, _, _, (S idx), st2.
+        repeat split; try eassumption. right. left. repeat split; auto.
+      + destruct (p_default q) as [d|] eqn:Ed; [|discriminate].
+        destruct (Fin _ _ _ H) as [st2 [Hacc [Hi [Hc [Hk Hp]]]]]. eexists a, d, _, idx, st2.
+        repeat split; try eassumption. right. right. repeat split; auto.
+  Qed.
+
+  (* parameters that take no positional value do not advance the index of the positional values *)
+  Lemma pass_named_idx : forall ps idx st st', (forall q, In q ps -> takes_positional q = false) ->
+    pass_named (filter nonstar ps) idx st = Ok st' -> a_idx st' = idx.
+  Proof.
+    induction ps as [|q ps IH]; intros idx st st' Hn H.
+    - simpl in H. inversion H; subst. reflexivity.
+    - destruct (nonstar q) eqn:Ens.
+      + destruct (pass_named_step q ps idx st st' Ens H) as [a [v [s [idx' [st2 [_ [_ [_ [_ [_ [Hp Hcase]]]]]]]]]]].
+        assert (idx' = idx).
+        { destruct Hcase as [[_ [_ E]]|[[_ [Hpo _]]|[_ [_ [_ E]]]]]; try assumption.
+          unfold pos_on in Hpo. rewrite (Hn q (or_introl eq_refl)) in Hpo. discriminate. }
+        subst idx'. eapply IH; [|exact Hp]. intros; apply Hn; now right.
+      + simpl filter in H. rewrite Ens in H. eapply IH; [|exact H]. intros; apply Hn; now right.
+  Qed.
+
+  (* where the walk of the first pass stands relative to CPython's: k positional values are bound, m are left *)
+  Definition aligned (k m idx : nat) : Prop :=
+    (m = 0 /\ (should_have_kwargs pc f = true \/ List.length (wargs c) <= idx))
+    \/ (m <> 0 /\ should_have_kwargs pc f = false /\ idx = List.length (c_recv c) + k /\ k + m = List.length (c_args c)).
+
+  Definition slot_fine (p : param) (sl : slot) : Prop :=
+    match sl with
+    | BOne (SArg i) => exists a v, p_ann p = Some a /\ nth_error (c_args c) i = Some v /\ accepted a v
+    | BOne (SKw n) => n = p_name p /\ exists a v, p_ann p = Some a /\ kw_get (p_name p) (c_kwargs c) = Some v /\ accepted a v
+    | BOne (SDefault n) => exists a d, p_ann p = Some a /\ p_default p = Some d /\ accepted a d
+    | _ => True
+    end.
+
+  Lemma lockstep : forall all ps k m idx st st' b0,
+    distinct (map p_name ps) = true -> star_last ps = true ->
+    bind_go all ps (map SArg (seq k m)) (kw_names c) = Ok b0 ->
+    pass_named (filter nonstar ps) idx st = Ok st' ->
+    ((exists q, In q ps /\ takes_positional q = true) -> aligned k m idx) ->
+    idx <= List.length (c_recv c) + k ->
+    (forall p sl, In p ps -> In (p_name p, sl) b0 -> slot_fine p sl)
+    /\ (forall n l i, In (n, BStar l) b0 -> In (SArg i) l -> a_idx st' <= List.length (c_recv c) + i)
+    /\ a_checked st' = a_checked st ++ map p_name (filter takes_keyword (filter nonstar ps)).
+  Proof.
+    intros all. induction ps as [|q ps IH]; intros k m idx st st' b0 Hd Hsl Hb Hpass Hal Hweak.
+    { simpl in Hb. destruct (map SArg (seq k m)); [|discriminate]. inversion Hb; subst.
+      simpl in Hpass. inversion Hpass; subst. simpl. rewrite app_nil_r. repeat split; try reflexivity; intros; contradiction. }
+    simpl in Hd. apply andb_true_iff in Hd as [Hq Hd']. apply negb_true_iff in Hq. rewrite mem_false in Hq.
+    simpl in Hsl. apply andb_true_iff in Hsl as [Hsq Hsl'].
+    assert (Fin : forall slq b' k' m' idx' st2,
+              bind_go all ps (map SArg (seq k' m')) (kw_names c) = Ok b' -> b0 = (p_name q, slq) :: b' ->
+              pass_named (filter nonstar ps) idx' st2 = Ok st' ->
+              ((exists r, In r ps /\ takes_positional r = true) -> aligned k' m' idx') -> idx' <= List.length (c_recv c) + k' ->
+              slot_fine q slq ->
+              (forall l i, slq = BStar l -> In (SArg i) l -> a_idx st' <= List.length (c_recv c) + i) ->
+              (forall p sl, In p (q :: ps) -> In (p_name p, sl) b0 -> slot_fine p sl)
+              /\ (forall n l i, In (n, BStar l) b0 -> In (SArg i) l -> a_idx st' <= List.length (c_recv c) + i)
+              /\ a_checked st' = a_checked st2 ++ map p_name (filter takes_keyword (filter nonstar ps))).
+    { intros slq b' k' m' idx' st2 Eb E0 Hp Ha Hw Hfq Hstar. subst b0.
+      destruct (IH k' m' idx' st2 st' b' Hd' Hsl' Eb Hp Ha Hw) as [H1 [H2 H3]].
+      pose proof (bind_go_names _ _ _ _ _ Eb) as Hn.
+      split; [|split; [|exact H3]].
+      - intros p sl Hin Hs. destruct (entry_cases q ps slq b' p sl Hq Hn Hin Hs) as [[-> ->]|[Hp' Hs']]; [assumption|now apply H1].
+      - intros n l i [E|Hs] Hi; [inversion E; subst; eapply Hstar; [reflexivity|eassumption]|eapply H2; eassumption]. }
+    assert (Off : forall r, (should_have_kwargs pc f = true \/ List.length (wargs c) <= idx) -> pos_on r idx = false).
+    { intros r Hoff. unfold pos_on. destruct Hoff as [Hs|Hl]; [rewrite Hs; simpl; now rewrite andb_false_r|].
+      replace (Nat.ltb idx (List.length (wargs c))) with false by (symmetry; apply Nat.ltb_ge; lia). now rewrite andb_false_r. }
+    assert (Next : forall m', k + S m' = List.length (c_args c) -> should_have_kwargs pc f = false -> idx = List.length (c_recv c) + k ->
+              aligned (S k) m' (S idx)).
+    { intros m' Hlen Hshk Hidx. destruct m' as [|m'']; [left; split; [reflexivity|right; rewrite wargs_length; lia]|].
+      right. repeat split; try assumption; try lia. }
+    simpl in Hb. unfold by_default in Hb.
+    destruct (p_kind q) eqn:Ek.
+    - (* positional-only *)
+      assert (Hns : nonstar q = true) by (unfold nonstar, is_star, is_varpos, is_varkw; now rewrite Ek).
+      assert (Htp : takes_positional q = true) by (unfold takes_positional; now rewrite Ek).
+      assert (Htk : takes_keyword q = false) by (unfold takes_keyword; now rewrite Ek).
+      specialize (Hal (ex_intro _ q (Logic.conj (or_introl eq_refl) Htp))).
+      destruct (pass_named_step q ps idx st st' Hns Hpass) as [a [v [s [idx' [st2 [Ha [Hacc [Hi2 [Hc2 [_ [Hp Hcase]]]]]]]]]]].
+      rewrite Htk in Hc2.
+      assert (Hchk : a_checked st' = a_checked st2 ++ map p_name (filter takes_keyword (filter nonstar ps)) ->
+                a_checked st' = a_checked st ++ map p_name (filter takes_keyword (filter nonstar (q :: ps)))).
+      { intros H3. rewrite H3, Hc2. simpl filter. rewrite Hns. simpl filter. now rewrite Htk. }
+      destruct m as [|m'].
+      + simpl in Hb. destruct (p_default q) as [d|] eqn:Edq; [|discriminate].
+        destruct (bind_go all ps [] (kw_names c)) as [b'|] eqn:Eb; [|discriminate]. simpl in Hb. inversion Hb as [Hb0].
+        destruct Hal as [[_ Hoff]|[Hm _]]; [|congruence].
+        pose proof (Off q Hoff) as Hpo.
+        destruct Hcase as [[Ht _]|[[_ [Hpo' _]]|[_ [_ [Edv ->]]]]]; [congruence|congruence|].
+        inversion Edv; subst v.
+        assert (A1 : (exists r, In r ps /\ takes_positional r = true) -> aligned k 0 idx) by (intros _; left; split; [reflexivity|exact Hoff]).
+        assert (A2 : slot_fine q (BOne (SDefault (p_name q)))) by (simpl; exists a, d; repeat split; assumption).
+        destruct (Fin _ b' k 0 idx st2 Eb (eq_sym Hb0) Hp A1 Hweak A2 ltac:(intros; discriminate)) as [H1 [H2 H3]].
+        try rewrite Hb0. split; [assumption|]. split; [assumption|]. now apply Hchk.
+      + simpl in Hb. destruct (bind_go all ps (map SArg (seq (S k) m')) (kw_names c)) as [b'|] eqn:Eb; [|discriminate]. simpl in Hb. inversion Hb as [Hb0].
+        destruct Hal as [[Hm _]|[_ [Hshk [Hidx Hlen]]]]; [discriminate|].
+        assert (Hpo : pos_on q idx = true).
+        { unfold pos_on. rewrite Htp, Hshk. simpl. apply Nat.ltb_lt. rewrite wargs_length. lia. }
+        destruct Hcase as [[Ht _]|[[_ [_ [Ev ->]]]|[_ [Hpo' _]]]]; [congruence| |congruence].
+        assert (Hk : k < List.length (c_args c)) by lia.
+        destruct (nth_error (c_args c) k) as [v0|] eqn:En; [|apply nth_error_None in En; lia].
+        assert (v = v0) by (subst v; unfold wargs; rewrite Hidx; now apply nth_app_args). subst v0.
+        assert (A1 : (exists r, In r ps /\ takes_positional r = true) -> aligned (S k) m' (S idx)) by (intros _; now apply Next).
+        assert (A2 : slot_fine q (BOne (SArg k))) by (simpl; exists a, v; repeat split; assumption).
+        destruct (Fin _ b' (S k) m' (S idx) st2 Eb (eq_sym Hb0) Hp A1 ltac:(lia) A2 ltac:(intros; discriminate)) as [H1 [H2 H3]].
+        try rewrite Hb0. split; [assumption|]. split; [assumption|]. now apply Hchk.
+    - (* positional-or-keyword *)
+      assert (Hns : nonstar q = true) by (unfold nonstar, is_star, is_varpos, is_varkw; now rewrite Ek).
+      assert (Htp : takes_positional q = true) by (unfold takes_positional; now rewrite Ek).
+      assert (Htk : takes_keyword q = true) by (unfold takes_keyword; now rewrite Ek).
+      specialize (Hal (ex_intro _ q (Logic.conj (or_introl eq_refl) Htp))).
+      destruct (pass_named_step q ps idx st st' Hns Hpass) as [a [v [s [idx' [st2 [Ha [Hacc [Hi2 [Hc2 [_ [Hp Hcase]]]]]]]]]]].
+      rewrite Htk in Hc2.
+      assert (Hchk : a_checked st' = a_checked st2 ++ map p_name (filter takes_keyword (filter nonstar ps)) ->
+                a_checked st' = a_checked st ++ map p_name (filter takes_keyword (filter nonstar (q :: ps)))).
+      { intros H3. rewrite H3, Hc2. simpl filter. rewrite Hns. simpl filter. rewrite Htk. simpl. now rewrite <- app_assoc. }
+      destruct m as [|m'].
+      + simpl in Hb.
+        destruct Hal as [[_ Hoff]|[Hm _]]; [|congruence].
+        pose proof (Off q Hoff) as Hpo.
+        assert (A1 : (exists r, In r ps /\ takes_positional r = true) -> aligned k 0 idx) by (intros _; left; split; [reflexivity|exact Hoff]).
+        destruct (mem (p_name q) (kw_names c)) eqn:Em.
+        * destruct (bind_go all ps [] (kw_names c)) as [b'|] eqn:Eb; [|discriminate]. simpl in Hb. inversion Hb as [Hb0].
+          destruct (kw_get_mem_some _ _ Em) as [v0 Hv0].
+          destruct Hcase as [[_ [Ev ->]]|[[[Ht|Hkn] _]|[[Ht|Hkn] _]]]; try congruence.
+          assert (A2 : slot_fine q (BOne (SKw (p_name q)))) by (simpl; split; [reflexivity|]; exists a, v; repeat split; assumption).
+          destruct (Fin _ b' k 0 idx st2 Eb (eq_sym Hb0) Hp A1 Hweak A2 ltac:(intros; discriminate)) as [H1 [H2 H3]].
+          try rewrite Hb0. split; [assumption|]. split; [assumption|]. now apply Hchk.
+        * destruct (p_default q) as [d|] eqn:Edq; [|discriminate].
+          destruct (bind_go all ps [] (kw_names c)) as [b'|] eqn:Eb; [|discriminate]. simpl in Hb. inversion Hb as [Hb0].
+          pose proof (kw_get_not_mem _ _ Em) as Hkn.
+          destruct Hcase as [[_ [Ev _]]|[[_ [Hpo' _]]|[_ [_ [Edv ->]]]]]; [congruence|congruence|].
+          inversion Edv; subst v.
+          assert (A2 : slot_fine q (BOne (SDefault (p_name q)))) by (simpl; exists a, d; repeat split; assumption).
+          destruct (Fin _ b' k 0 idx st2 Eb (eq_sym Hb0) Hp A1 Hweak A2 ltac:(intros; discriminate)) as [H1 [H2 H3]].
+          try rewrite Hb0. split; [assumption|]. split; [assumption|]. now apply Hchk.
+      + simpl in Hb. destruct (mem (p_name q) (kw_names c)) eqn:Em; [discriminate|].
+        destruct (bind_go all ps (map SArg (seq (S k) m')) (kw_names c)) as [b'|] eqn:Eb; [|discriminate]. simpl in Hb. inversion Hb as [Hb0].
+        pose proof (kw_get_not_mem _ _ Em) as Hkn.
+        destruct Hal as [[Hm _]|[_ [Hshk [Hidx Hlen]]]]; [discriminate|].
+        assert (Hpo : pos_on q idx = true).
+        { unfold pos_on. rewrite Htp, Hshk. simpl. apply Nat.ltb_lt. rewrite wargs_length. lia. }
+        destruct Hcase as [[_ [Ev _]]|[[_ [_ [Ev ->]]]|[_ [Hpo' _]]]]; [congruence| |congruence].
+        assert (Hk : k < List.length (c_args c)) by lia.
+        destruct (nth_error (c_args c) k) as [v0|] eqn:En; [|apply nth_error_None in En; lia].
+        assert (v = v0) by (subst v; unfold wargs; rewrite Hidx; now apply nth_app_args). subst v0.
+        assert (A1 : (exists r, In r ps /\ takes_positional r = true) -> aligned (S k) m' (S idx)) by (intros _; now apply Next).
+        assert (A2 : slot_fine q (BOne (SArg k))) by (simpl; exists a, v; repeat split; assumption).
+        destruct (Fin _ b' (S k) m' (S idx) st2 Eb (eq_sym Hb0) Hp A1 ltac:(lia) A2 ltac:(intros; discriminate)) as [H1 [H2 H3]].
+        try rewrite Hb0. split; [assumption|]. split; [assumption|]. now apply Hchk.
+    - (* *args takes every positional value that is left; no parameter behind it takes one *)
+      assert (Hns : nonstar q = false) by (unfold nonstar, is_star, is_varpos, is_varkw; now rewrite Ek).
+      assert (Hvp : is_varpos q = true) by (unfold is_varpos; now rewrite Ek).
+      rewrite Hvp in Hsq. rewrite forallb_forall in Hsq.
+      assert (Hnone : forall r, In r ps -> takes_positional r = false) by (intros r Hr; specialize (Hsq r Hr); now apply negb_true_iff in Hsq).
+      simpl filter in Hpass. rewrite Hns in Hpass.
+      destruct (bind_go all ps [] (kw_names c)) as [b'|] eqn:Eb; [|discriminate]. simpl in Hb. inversion Hb as [Hb0].
+      pose proof (pass_named_idx ps idx st st' Hnone Hpass) as Hix.
+      assert (A1 : (exists r, In r ps /\ takes_positional r = true) -> aligned (k + m) 0 idx).
+      { intros [r [Hr Ht]]. rewrite (Hnone r Hr) in Ht. discriminate. }
+      assert (A3 : forall l i, BStar (map SArg (seq k m)) = BStar l -> In (SArg i) l -> a_idx st' <= List.length (c_recv c) + i).
+      { intros l i E Hi. inversion E; subst l. apply in_map_iff in Hi as [j [Ej Hj]]. inversion Ej; subst j. apply in_seq in Hj. lia. }
+      destruct (Fin _ b' (k + m) 0 idx st Eb (eq_sym Hb0) Hpass A1 ltac:(lia) I A3) as [H1 [H2 H3]].
+      try rewrite Hb0. split; [assumption|]. split; [assumption|]. rewrite H3. simpl filter. now rewrite Hns.
+    - (* keyword-only *)
+      assert (Hns : nonstar q = true) by (unfold nonstar, is_star, is_varpos, is_varkw; now rewrite Ek).
+      assert (Htp : takes_positional q = false) by (unfold takes_positional; now rewrite Ek).
+      assert (Htk : takes_keyword q = true) by (unfold takes_keyword; now rewrite Ek).
+      destruct (pass_named_step q ps idx st st' Hns Hpass) as [a [v [s [idx' [st2 [Ha [Hacc [Hi2 [Hc2 [_ [Hp Hcase]]]]]]]]]]].
+      rewrite Htk in Hc2.
+      assert (Hpo : pos_on q idx = false) by (unfold pos_on; now rewrite Htp).
+      assert (A1 : (exists r, In r ps /\ takes_positional r = true) -> aligned k m idx).
+      { intros [r [Hr Ht]]. apply Hal. exists r. split; [now right|assumption]. }
+      assert (Hchk : a_checked st' = a_checked st2 ++ map p_name (filter takes_keyword (filter nonstar ps)) ->
+                a_checked st' = a_checked st ++ map p_name (filter takes_keyword (filter nonstar (q :: ps)))).
+      { intros H3. rewrite H3, Hc2. simpl filter. rewrite Hns. simpl filter. rewrite Htk. simpl. now rewrite <- app_assoc. }
+      destruct (mem (p_name q) (kw_names c)) eqn:Em.
+      + destruct (bind_go all ps (map SArg (seq k m)) (kw_names c)) as [b'|] eqn:Eb; [|discriminate]. simpl in Hb. inversion Hb as [Hb0].
+        destruct (kw_get_mem_some _ _ Em) as [v0 Hv0].
+        destruct Hcase as [[_ [Ev ->]]|[[[Ht|Hkn] _]|[[Ht|Hkn] _]]]; try congruence.
+        assert (A2 : slot_fine q (BOne (SKw (p_name q)))) by (simpl; split; [reflexivity|]; exists a, v; repeat split; assumption).
+        destruct (Fin _ b' k m idx st2 Eb (eq_sym Hb0) Hp A1 Hweak A2 ltac:(intros; discriminate)) as [H1 [H2 H3]].
+        try rewrite Hb0. split; [assumption|]. split; [assumption|]. now apply Hchk.
+      + destruct (p_default q) as [d|] eqn:Edq; [|discriminate].
+        destruct (bind_go all ps (map SArg (seq k m)) (kw_names c)) as [b'|] eqn:Eb; [|discriminate]. simpl in Hb. inversion Hb as [Hb0].
+        pose proof (kw_get_not_mem _ _ Em) as Hkn.
+        destruct Hcase as [[_ [Ev _]]|[[_ [Hpo' _]]|[_ [_ [Edv ->]]]]]; [congruence|congruence|].
+        inversion Edv; subst v.
+        assert (A2 : slot_fine q (BOne (SDefault (p_name q)))) by (simpl; exists a, d; repeat split; assumption).
+        destruct (Fin _ b' k m idx st2 Eb (eq_sym Hb0) Hp A1 Hweak A2 ltac:(intros; discriminate)) as [H1 [H2 H3]].
+        try rewrite Hb0. split; [assumption|]. split; [assumption|]. now apply Hchk.
+    - (* **kwargs *)
+      assert (Hns : nonstar q = false) by (unfold nonstar, is_star, is_varpos, is_varkw; rewrite Ek; now rewrite orb_true_r).
+      simpl filter in Hpass. rewrite Hns in Hpass.
+      destruct (bind_go all ps (map SArg (seq k m)) (kw_names c)) as [b'|] eqn:Eb; [|discriminate]. simpl in Hb. inversion Hb as [Hb0].
+      assert (A1 : (exists r, In r ps /\ takes_positional r = true) -> aligned k m idx).
+      { intros [r [Hr Ht]]. apply Hal. exists r. split; [now right|assumption]. }
+      destruct (Fin _ b' k m idx st Eb (eq_sym Hb0) Hpass A1 Hweak I ltac:(intros; discriminate)) as [H1 [H2 H3]].
+      try rewrite Hb0. split; [assumption|]. split; [assumption|]. rewrite H3. simpl filter. now rewrite Hns.
+  Qed.
+End Lockstep.
+
+Lemma star_last_tl : forall ps, star_last ps = true -> star_last (tl ps) = true.
+Proof. intros [|p ps] H; [reflexivity|]. simpl in H. now apply andb_true_iff in H as [_ H]. Qed.
+
+Section PhaseSound.
   Variable pc : pedantic_cfg.
   Variable check : ann -> value -> tvenv -> outcome unit * tvenv.
   Variable consumes : ann -> value -> bool.
   Hypothesis good : pc_good pc = true.
 
-  (* every positional value CPython binds to a named parameter has been accepted by the checker when the argument phase
-     succeeds - provided no defaulted parameter is filled positionally and the receiver record is consistent *)
-  Lemma positional_accepted : forall f c inst st' b,
-    sig_ok f = true -> recv_consistent f c -> twin_binding f c = Ok b -> no_defaulted_positional f b = true ->
-    args_phase pc check consumes f c inst astate0 = Ok st' ->
-    forall oa v, In (oa, v) (positional_values f c b) -> exists a, oa = Some a /\ accepted check a v.
+  Definition idx0 (f : fn) : nat := if is_instance_method f then 1 else 0.
+  (* where the first pass starts relative to the positional values the caller wrote: either positional values play no role
+     (none written, and the pass does not look at the receiver), or positional calls are allowed and the pass starts exactly
+     behind the receiver *)
+  Definition top_aligned (f : fn) (c : call) : Prop :=
+    (c_args c = [] /\ (should_have_kwargs pc f = true \/ List.length (c_recv c) <= idx0 f))
+    \/ (c_args c <> [] /\ should_have_kwargs pc f = false /\ idx0 f = List.length (c_recv c)).
+
+  (* every value of the statement has been accepted by the checker when the argument phase succeeds *)
+  Theorem phase_sound_of : forall f c b,
+    sig_ok f = true -> recv_known f c -> twin_binding f c = Ok b -> top_aligned f c ->
+    phase_sound pc check consumes f c b.
   Proof.
-    intros f c inst st' b Hsig Hrc Hb Hnd Hargs oa v Hin.
+    intros f c b Hsig Hrk Hb Htop inst st' Hargs oa v Hin.
     rewrite (args_phase_ref pc check consumes good) in Hargs.
-    destruct (run_pass pc check consumes f c inst PNamed astate0) as [st1|e] eqn:E1; [|discriminate]. clear Hargs.
-    unfold run_pass in E1.
-    pose proof Hsig as Hs0. unfold sig_ok in Hs0. repeat (apply andb_true_iff in Hs0; destruct Hs0 as [Hs0 ?]).
-    rename Hs0 into Hnopos, H into Hbound, H0 into Hnoself, H1 into Hdist.
-    (* the common core: the declared parameters ps are bound from the caller's positional values alone *)
-    assert (Core : forall ps b0, declared f = ps -> params_without_self f = ps -> incl ps (f_params f) ->
-              (if is_instance_method f then 1 else 0) = List.length (c_recv c) ->
-              bind_go (full_params f) ps (arg_srcs c) (kw_names c) = Ok b0 -> (forall x, In x (positional_values f c b) -> In x (positional_values f c b0)) ->
-              (forall x, In x b0 -> In x b) ->
+    destruct (run_pass pc check consumes f c inst PNamed astate0) as [st1|e] eqn:E1; [|discriminate]. cbn [Exn.bind] in Hargs.
+    destruct (run_pass pc check consumes f c inst PVarPos st1) as [st2|e] eqn:E2; [|discriminate]. cbn [Exn.bind] in Hargs.
+    unfold run_pass in E1, E2, Hargs.
+    pose proof Hsig as Hs0. unfold sig_ok in Hs0. apply andb_true_iff in Hs0 as [Hbase Hstar].
+    pose proof Hbase as Hs1. unfold sig_base in Hs1. repeat (apply andb_true_iff in Hs1; destruct Hs1 as [Hs1 ?]).
+    rename Hs1 into Hone1, H into Hbound, H0 into Hnoself, H1 into Hdist, H2 into Hone2.
+    apply Nat.leb_le in Hone1. apply Nat.leb_le in Hone2.
+    assert (Core : forall ps b0, declared f = ps -> params_without_self f = ps -> idx0 f <= List.length (c_recv c) ->
+              bind_go (full_params f) ps (arg_srcs c) (kw_names c) = Ok b0 ->
+              (forall n sl p, In (n, sl) b -> find_param n (declared f) = Some p -> In (n, sl) b0) ->
               exists a, oa = Some a /\ accepted check a v).
-    { intros ps b0 Hdecl Hpws Hincl Hstart Hb0 Hpv Hsub. specialize (Hpv _ Hin). clear Hin.
-      unfold positional_values in Hpv. apply in_flat_map in Hpv as [[n sl] [Hnb Hv]]. simpl in Hv.
-      destruct (find_param n (declared f)) as [p|] eqn:Ef; [|contradiction].
-      destruct sl as [[o|i|k|k]|l|ks]; try contradiction.
-      destruct (nth_error (c_args c) i) as [v0|] eqn:En; simpl in Hv; [|contradiction]. destruct Hv as [E|[]]. inversion E; subst oa v0. clear E.
-      destruct (find_param_spec _ _ _ Ef) as [Hpd Hpn]. subst n. rewrite Hdecl in Hpd.
+    { intros ps b0 Hdecl Hpws Hweak Hb0 Hsub.
       assert (Hd' : distinct (map p_name ps) = true).
       { rewrite <- Hdecl. unfold declared. destruct (f_recv f); [|assumption].
         destruct (full_params f) as [|r rest]; [reflexivity|]. simpl in Hdist. now apply andb_true_iff in Hdist as [_ Hdist]. }
-      rewrite Hpws in E1.
-      destruct (lockstep pc check consumes f c inst (full_params f) ps 0 (List.length (c_args c)) (if is_instance_method f then 1 else 0) astate0 st1 b0) with (p := p) (i := i)
-        as [a [v1 [Ha [Hn1 Hacc]]]]; try assumption; try lia.
-      - intros q Hq. split.
-        + rewrite <- Hdecl in Hq. rewrite forallb_forall in Hnoself. specialize (Hnoself q Hq). apply negb_true_iff in Hnoself.
-          now apply Nat.eqb_neq in Hnoself.
-        + unfold no_posonly in Hnopos. rewrite forallb_forall in Hnopos. specialize (Hnopos q (Hincl q Hq)). intros Hk. now rewrite Hk in Hnopos.
-      - intros q j Hq Hs. unfold no_defaulted_positional in Hnd. rewrite forallb_forall in Hnd. specialize (Hnd _ (Hsub _ Hs)). simpl in Hnd.
-        rewrite Hdecl, (find_param_complete' _ _ Hd' Hq) in Hnd. unfold no_default in Hnd. destruct (p_default q); [discriminate|reflexivity].
-      - exists a. split; [assumption|]. rewrite En in Hn1. now inversion Hn1; subst. }
+      assert (Hst' : star_last ps = true).
+      { rewrite <- Hdecl. unfold declared, full_params, func_params. destruct (f_bound f) as [[n0 o0]|].
+        - rewrite Hbound. simpl. exact Hstar.
+        - destruct (f_recv f); [now apply star_last_tl|assumption]. }
+      rewrite Hpws in E1, E2, Hargs. fold (idx0 f) in E1.
+      destruct (lockstep pc check consumes f c inst (full_params f) ps 0 (List.length (c_args c)) (idx0 f) astate0 st1 b0 Hd' Hst' Hb0 E1)
+        as [L1 [L2 L3]].
+      { intros _. destruct Htop as [[Ha Hoff]|[Ha [Hs Hi]]].
+        - left. split; [now rewrite Ha|]. destruct Hoff as [Hs|Hl]; [now left|right]. rewrite wargs_length, Ha. simpl. lia.
+        - right. repeat split; try assumption; try lia. intros E. apply Ha. now apply length_zero_iff_nil. }
+      { lia. }
+      simpl in L3.
+      (* the entry the value comes from *)
+      assert (Entry : exists n sl p, In (n, sl) b /\ find_param n (declared f) = Some p /\
+                (match sl with
+                 | BOne (SKw k) => exists v0, kw_get k (c_kwargs c) = Some v0 /\ (oa, v) = (p_ann p, v0)
+                 | BOne (SDefault _) => exists d, p_default p = Some d /\ (oa, v) = (p_ann p, d)
+                 | BOne (SArg i) => exists v0, nth_error (c_args c) i = Some v0 /\ (oa, v) = (p_ann p, v0)
+                 | BOne (SObj _) => False
+                 | BStar l => exists i v0, In (SArg i) l /\ nth_error (c_args c) i = Some v0 /\ (oa, v) = (p_ann p, v0)
+                 | BKws ks => exists k v0, In k ks /\ kw_get k (c_kwargs c) = Some v0 /\ (oa, v) = (p_ann p, v0)
+                 end)).
+      { unfold all_values in Hin. apply in_app_or in Hin as [Hin|Hin].
+        - unfold supplied_of in Hin. apply in_flat_map in Hin as [[n sl] [Hnb Hv]]. simpl in Hv.
+          destruct (find_param n (declared f)) as [p|] eqn:Ef; [|contradiction].
+          exists n, sl, p. split; [assumption|]. split; [assumption|].
+          destruct sl as [[o|i|k|k]|l|ks]; try contradiction.
+          + destruct (kw_get k (c_kwargs c)) as [v0|]; simpl in Hv; [|contradiction]. destruct Hv as [E|[]]. exists v0. split; [reflexivity|now symmetry].
+          + destruct (p_default p) as [d|]; simpl in Hv; [|contradiction]. destruct Hv as [E|[]]. exists d. split; [reflexivity|now symmetry].
+          + apply in_flat_map in Hv as [s [Hs Hv]]. destruct s as [o|i|k|k]; simpl in Hv; try contradiction.
+            destruct (nth_error (c_args c) i) as [v0|] eqn:En; simpl in Hv; [|contradiction]. destruct Hv as [E|[]].
+            exists i, v0. repeat split; try assumption. now symmetry.
+          + apply in_flat_map in Hv as [k [Hk Hv]]. destruct (kw_get k (c_kwargs c)) as [v0|] eqn:Ek; simpl in Hv; [|contradiction].
+            destruct Hv as [E|[]]. exists k, v0. repeat split; try assumption. now symmetry.
+        - unfold positional_values in Hin. apply in_flat_map in Hin as [[n sl] [Hnb Hv]]. simpl in Hv.
+          destruct (find_param n (declared f)) as [p|] eqn:Ef; [|contradiction].
+          exists n, sl, p. split; [assumption|]. split; [assumption|].
+          destruct sl as [[o|i|k|k]|l|ks]; try contradiction.
+          destruct (nth_error (c_args c) i) as [v0|]; simpl in Hv; [|contradiction]. destruct Hv as [E|[]]. exists v0. split; [reflexivity|now symmetry]. }
+      destruct Entry as [n [sl [p [Hnb [Ef Hval]]]]].
+      destruct (find_param_spec _ _ _ Ef) as [Hpd Hpn]. subst n.
+      pose proof (Hsub _ _ _ Hnb Ef) as Hnb0. rewrite Hdecl in Hpd.
+      pose proof (L1 p sl Hpd Hnb0) as Hfine.
+      assert (Hpw : In p (params_without_self f)) by (now rewrite Hpws).
+      (* what CPython's binding says about the slot *)
+      unfold twin_binding in Hb.
+      destruct (py_bind_slots _ _ _ _ (twin_pos_src c) Hb _ _ Hnb) as [q [Hq [Hqn Hslot]]].
+      assert (Hpfull : In p (full_params f)) by (rewrite <- Hdecl in Hpd; now destruct (declared_incl_base f p Hbase Hpd)).
+      assert (q = p) by (eapply distinct_unique; [exact Hdist|assumption|assumption|congruence]). subst q.
+      destruct sl as [[o|i|k|k]|l|ks].
+      - contradiction.
+      - destruct Hval as [v0 [En E]]. inversion E; subst oa v0. simpl in Hfine.
+        destruct Hfine as [a [v1 [Ha [En1 Hacc]]]]. exists a. split; [assumption|]. rewrite En in En1. now inversion En1; subst.
+      - destruct Hval as [v0 [Ek E]]. inversion E; subst oa v0. simpl in Hfine.
+        destruct Hfine as [-> [a [v1 [Ha [Ek1 Hacc]]]]]. exists a. split; [assumption|]. rewrite Ek in Ek1. now inversion Ek1; subst.
+      - destruct Hval as [d [Ed E]]. inversion E; subst oa d. simpl in Hfine.
+        destruct Hfine as [a [d1 [Ha [Ed1 Hacc]]]]. exists a. split; [assumption|]. rewrite Ed in Ed1. now inversion Ed1; subst.
+      - (* an element of *args: it sits behind everything the first pass took *)
+        destruct Hval as [i [v0 [Hi [En E]]]]. inversion E; subst oa v0. simpl in Hslot.
+        assert (Hfil : filter is_varpos (params_without_self f) = [p]).
+        { apply filter_single; [|assumption|assumption].
+          unfold params_without_self. eapply Nat.le_trans; [apply filter_filter_length|exact Hone1]. }
+        rewrite <- Hpws in E2. rewrite Hfil in E2. unfold pass_varpos in E2.
+        destruct (p_ann p) as [a|] eqn:Ea; [|discriminate]. exists a. split; [reflexivity|].
+        destruct (chk_all_ok check consumes f c inst _ _ _ _ E2) as [_ Hall].
+        apply (Hall v (SArg i)). eapply In_skipn with (k := List.length (c_recv c) + i).
+        + unfold wargs, wsrc, arg_srcs. rewrite combine_app_nth by (now rewrite map_length).
+          apply nth_error_combine_args. assumption.
+        + eapply L2; eassumption.
+      - (* a value of **kwargs: its key is none of the names the first pass has consumed *)
+        destruct Hval as [k [v0 [Hk [Ek E]]]]. inversion E; subst oa v0. simpl in Hslot. destruct Hslot as [Hvk ->].
+        apply filter_In in Hk as [Hkin Hknot]. apply negb_true_iff in Hknot.
+        assert (Hfil : filter is_varkw (params_without_self f) = [p]).
+        { apply filter_single; [|assumption|assumption].
+          unfold params_without_self. eapply Nat.le_trans; [apply filter_filter_length|exact Hone2]. }
+        rewrite <- Hpws in Hargs. rewrite Hfil in Hargs. unfold pass_varkw in Hargs.
+        destruct (p_ann p) as [a|] eqn:Ea; [|discriminate]. exists a. split; [reflexivity|].
+        destruct (chk_all_ok check consumes f c inst _ _ _ _ Hargs) as [_ Hall].
+        apply (Hall v (SKw k)). apply in_map_iff. exists (k, v). split; [reflexivity|].
+        apply filter_In. split; [now apply kw_get_In|]. simpl.
+        rewrite <- Hpws in E2. rewrite (pass_varpos_checked check consumes f c inst _ _ _ E2), L3.
+        apply negb_true_iff. apply mem_false. intros Hkin2. apply mem_false in Hknot. apply Hknot.
+        apply in_map_iff in Hkin2 as [r [Hrn Hr]]. apply filter_In in Hr as [Hr Hrtk].
+        apply filter_In in Hr as [Hr Hrs].
+        unfold kw_param_names. apply in_map_iff. exists r. split; [assumption|].
+        apply filter_In. split.
+        + rewrite <- Hdecl in Hr. now destruct (declared_incl_base f r Hbase Hr).
+        + unfold takes_keyword in Hrtk. unfold nonstar, is_star, is_varpos, is_varkw in Hrs. unfold takes_kw.
+          destruct (p_kind r); try discriminate; reflexivity. }
     unfold twin_binding, py_bind in Hb.
-    destruct (forallb (fun k => mem k (kw_param_names (full_params f)) || has_varkw (full_params f)) (kw_names c)); [|discriminate].
-    destruct Hrc as [S1|[S2|S3]].
+    destruct (forallb (fun k => mem k (kw_param_names (full_params f)) || has_varkw (full_params f)) (kw_names c)) eqn:Hkws; [|discriminate].
+    assert (Hb' : twin_binding f c = Ok b) by (unfold twin_binding, py_bind; now rewrite Hkws).
+    destruct Hrk as [S1|[S2|S3]].
     - destruct S1 as [Hbd [Hrecv [Hfa [r [rest [x [Hps [Hn [Hk [Hd [Hrc [Htw Hm]]]]]]]]]]]].
       assert (Hfull : full_params f = r :: rest) by (unfold full_params, func_params; now rewrite Hbd).
       unfold twin_pos in Hb. rewrite Htw, Hfull in Hb. simpl in Hb. rewrite Hk, Hn, Hm in Hb.
-      destruct (bind_go (r :: rest) rest (arg_srcs c) (kw_names c)) as [b0|] eqn:Eb0; [|discriminate]. simpl in Hb. inversion Hb; subst b.
+      destruct (bind_go (r :: rest) rest (arg_srcs c) (kw_names c)) as [b0|] eqn:Eb0; [|discriminate]. simpl in Hb. inversion Hb as [Hbb].
       assert (Hdecl : declared f = rest) by (unfold declared; now rewrite Hrecv, Hfull).
       apply (Core rest b0); try assumption.
       + unfold params_without_self. rewrite Hps. simpl. rewrite Hn. simpl. rewrite Hdecl in Hnoself. now apply filter_all'.
-      + rewrite Hps. intros q Hq. now right.
-      + unfold is_instance_method. rewrite Hfa, Hrc. reflexivity.
+      + unfold idx0, is_instance_method. rewrite Hfa, Hrc. simpl. lia.
       + now rewrite Hfull.
-      + intros y Hy. unfold positional_values in *. simpl in Hy. destruct (find_param self_name (declared f)); assumption.
-      + intros y Hy. now right.
-    - destruct S2 as [Hbd [Hrecv [Hinst [Hrc Htw]]]]. specialize (Hrc eq_refl).
+      + intros n sl p Hi Ef. rewrite <- Hbb in Hi. destruct Hi as [E|Hi]; [|assumption]. exfalso. inversion E; subst n sl.
+        destruct (find_param_spec _ _ _ Ef) as [Hp Hpn]. rewrite forallb_forall in Hnoself. specialize (Hnoself p Hp).
+        rewrite Hpn in Hnoself. now rewrite Nat.eqb_refl in Hnoself.
+    - destruct S2 as [Hbd [Hrecv [Hinst [Hrc Htw]]]].
       assert (Hfull : full_params f = f_params f) by (unfold full_params, func_params; now rewrite Hbd).
       unfold twin_pos in Hb. rewrite Htw in Hb. simpl in Hb.
       assert (Hdecl : declared f = f_params f) by (unfold declared; now rewrite Hrecv, Hfull).
       apply (Core (f_params f) b); try assumption; try auto.
       + unfold params_without_self. rewrite Hdecl in Hnoself. now apply filter_all'.
-      + intros q Hq; exact Hq.
-      + now rewrite Hinst, Hrc.
+      + unfold idx0. rewrite Hinst. lia.
       + now rewrite Hfull in *.
-    - destruct S3 as [n [o [x [Hbd [Hinst [Hrc [Htw Hm]]]]]]]. specialize (Hrc eq_refl).
+    - destruct S3 as [n [o [x [Hbd [Hinst [Hrc [Htw Hm]]]]]]].
       assert (Hfull : full_params f = bound_param n :: f_params f) by (unfold full_params, func_params; now rewrite Hbd).
       assert (Hrecv : f_recv f = true) by (rewrite Hbd in Hbound; exact Hbound).
       unfold twin_pos in Hb. rewrite Htw, Hfull in Hb. simpl in Hb. rewrite Hm in Hb.
-      destruct (bind_go (bound_param n :: f_params f) (f_params f) (arg_srcs c) (kw_names c)) as [b0|] eqn:Eb0; [|discriminate]. simpl in Hb. inversion Hb; subst b.
+      destruct (bind_go (bound_param n :: f_params f) (f_params f) (arg_srcs c) (kw_names c)) as [b0|] eqn:Eb0; [|discriminate]. simpl in Hb. inversion Hb as [Hbb].
       assert (Hdecl : declared f = f_params f) by (unfold declared; now rewrite Hrecv, Hfull).
       apply (Core (f_params f) b0); try assumption.
       + unfold params_without_self. rewrite Hdecl in Hnoself. now apply filter_all'.
-      + intros q Hq; exact Hq.
-      + now rewrite Hinst, Hrc.
+      + unfold idx0. rewrite Hinst. lia.
       + now rewrite Hfull.
-      + intros y Hy. unfold positional_values in *. simpl in Hy. destruct (find_param n (declared f)); assumption.
-      + intros y Hy. now right.
+      + intros n1 sl p Hi Ef. rewrite <- Hbb in Hi. destruct Hi as [E|Hi]; [|assumption]. exfalso. inversion E; subst n1 sl.
+        destruct (find_param_spec _ _ _ Ef) as [Hp Hpn]. rewrite Hdecl in Hp. rewrite Hfull in Hdist. simpl in Hdist.
+        apply andb_true_iff in Hdist as [Hd1 _]. apply negb_true_iff in Hd1. apply mem_false in Hd1. apply Hd1. rewrite <- Hpn. now apply in_map.
+  Qed.
+End PhaseSound.
+
+Section Guards.
+  Variable pc : pedantic_cfg.
+  Variable check : ann -> value -> tvenv -> outcome unit * tvenv.
+  Variable consumes : ann -> value -> bool.
+  Hypothesis good : pc_good pc = true.
+
+  (* outside the K4 region: where the keyword discipline applies, positional values are not silently stripped as a receiver *)
+  Definition not_stripped (f : fn) (c : call) : Prop :=
+    should_have_kwargs pc f = true -> c_args c <> [] -> args_without_self pc f c <> [].
+  (* the wrapper receives exactly the receiver the undecorated callable gets - or (static and class methods of a @pedantic_class
+     reached through an instance) the keyword discipline applies, so that the first pass never looks at positional values *)
+  Definition recv_fine (f : fn) (c : call) : Prop :=
+    recv_consistent f c \/ (recv_known f c /\ should_have_kwargs pc f = true).
+
+  Lemma strict_idx0 : forall f c, recv_consistent f c -> idx0 f = List.length (c_recv c).
+  Proof.
+    intros f c [S1|[S2|S3]]; unfold idx0.
+    - destruct S1 as [_ [_ [Hfa [r [rest [x [_ [_ [_ [_ [Hrc _]]]]]]]]]]]. unfold is_instance_method. now rewrite Hfa, Hrc.
+    - destruct S2 as [_ [_ [Hi [Hrc _]]]]. now rewrite Hi, (Hrc eq_refl).
+    - destruct S3 as [n [o [x [_ [Hi [Hrc _]]]]]]. now rewrite Hi, (Hrc eq_refl).
   Qed.
 
-  Theorem positional_guard : forall f c bd b a v,
-    sig_ok f = true -> recv_consistent f c -> twin_binding f c = Ok b -> no_defaulted_positional f b = true ->
-    In (Some a, v) (positional_values f c b) -> rejected check a v ->
+  Lemma sound_or_rejected : forall f c b,
+    sig_ok f = true -> recv_fine f c -> twin_binding f c = Ok b -> not_stripped f c ->
+    phase_sound pc check consumes f c b \/ assert_uses_kwargs pc f c = Raise PCallWithArgsC.
+  Proof.
+    intros f c b Hsig Hrf Hb Hns.
+    assert (Hrk : recv_known f c) by (destruct Hrf as [H|[H _]]; [now apply recv_consistent_known|assumption]).
+    destruct (should_have_kwargs pc f) eqn:Es.
+    - destruct (c_args c) as [|x l] eqn:Ea.
+      + left. apply phase_sound_of; try assumption. left. split; [exact Ea|now left].
+      + right. rewrite (assert_uses_kwargs_ref pc good), Es.
+        assert (Hne : args_without_self pc f c <> []) by (apply Hns; [exact Es|rewrite Ea; discriminate]).
+        destruct (args_without_self pc f c); [congruence|reflexivity].
+    - destruct Hrf as [Hrc|[_ E]]; [|rewrite Es in E; discriminate]. left. apply phase_sound_of; try assumption.
+      pose proof (strict_idx0 f c Hrc) as Hi.
+      destruct (c_args c) as [|x l] eqn:Ea; [left; split; [exact Ea|right; lia]|right; repeat split; try assumption; rewrite Ea; discriminate].
+  Qed.
+
+  (* C03, first sentence, for every value of the statement - by keyword, by default, *args element, **kwargs value, positional value
+     of a named parameter *)
+  Theorem guard : forall f c bd b a v,
+    sig_ok f = true -> recv_fine f c -> twin_binding f c = Ok b -> not_stripped f c ->
+    In (Some a, v) (all_values f c b) -> rejected check a v ->
     snd (run pc check consumes f c bd) = [] /\ exists e, fst (run pc check consumes f c bd) = Raise e.
   Proof.
-    intros f c bd b a v Hsig Hrc Hb Hnd Hin Hrej. rewrite (run_is_ref pc check consumes good). unfold run_ref.
-    destruct (instance_of f c) as [inst|e]; [|simpl; split; eauto].
-    destruct (assert_uses_kwargs pc f c) as [u|e]; [|simpl; split; eauto].
-    destruct (args_phase pc check consumes f c inst astate0) as [st|e] eqn:Ea; [|simpl; split; eauto].
-    exfalso. destruct (positional_accepted f c inst st b Hsig Hrc Hb Hnd Ea _ _ Hin) as [a' [E Hacc]].
-    inversion E; subst. eapply rejected_not_accepted; eassumption.
+    intros f c bd b a v Hsig Hrf Hb Hns Hin Hrej.
+    destruct (sound_or_rejected f c b Hsig Hrf Hb Hns) as [Hps|E]; [eapply args_guard; eassumption|].
+    rewrite (run_is_ref pc check consumes good). unfold run_ref.
+    destruct (instance_of f c) as [inst|e]; [|simpl; split; eauto]. rewrite E. simpl. split; eauto.
   Qed.
-End PositionalGuard.
+
+  Theorem guard_gen : forall f c b a v,
+    sig_ok f = true -> recv_fine f c -> twin_binding f c = Ok b -> not_stripped f c ->
+    In (Some a, v) (all_values f c b) -> rejected check a v ->
+    snd (run_gen pc check consumes f c) = [] /\ exists e, fst (run_gen pc check consumes f c) = Raise e.
+  Proof.
+    intros f c b a v Hsig Hrf Hb Hns Hin Hrej.
+    destruct (sound_or_rejected f c b Hsig Hrf Hb Hns) as [Hps|E]; [eapply args_guard_gen; eassumption|].
+    rewrite (run_gen_is_ref pc check consumes good). unfold run_gen_ref.
+    destruct (instance_of f c) as [inst|e]; [|simpl; split; eauto]. rewrite E. simpl. split; eauto.
+  Qed.
+
+  Theorem guard_exact : forall f c bd b a v,
+    sig_ok f = true -> recv_fine f c -> twin_binding f c = Ok b -> not_stripped f c ->
+    In (Some a, v) (all_values f c b) -> rejected check a v ->
+    (is_instance_method f = true -> wargs c <> []) ->
+    assert_uses_kwargs pc f c = Ok tt ->
+    (forall inst, instance_of f c = Ok inst -> clazz_probe f c inst = Ok tt) ->
+    (forall p a0, In p (f_params f) -> p_ann p = Some a0 -> forall v0 tv e, fst (check a0 v0 tv) = Raise e -> e = PTypeCheckC) ->
+    run pc check consumes f c bd = (Raise PTypeCheckC, []).
+  Proof.
+    intros f c bd b a v Hsig Hrf Hb Hns Hin Hrej Hinst Hauk Hprobe Hptc.
+    destruct (sound_or_rejected f c b Hsig Hrf Hb Hns) as [Hps|E]; [eapply args_guard_exact; eassumption|congruence].
+  Qed.
+End Guards.
